@@ -1011,6 +1011,27 @@ def check_misc(res):
             if (int(got[0]), int(got[1])) != want or any(isinstance(g, float) for g in got):
                 _V(res, 'add_wrong' if sym == '+' else 'sub_wrong', {**case, 'a': list(a), 'b': list(b)},
                    f'PixCoord{a} {sym} PixCoord{b} = ({got[0]!r}, {got[1]!r}), integer arithmetic gives {want}', list(want), [repr(got[0]), repr(got[1])])
+    # (c) the null rotation gives a new, independent coordinate like any other rotation
+    import astropy.units as u
+    for ang in (0.0 * u.deg, 0.0 * u.rad, -0.0 * u.deg, (30.0 - 30.0) * u.arcmin):
+        for src in (PixCoord(1.5, -2.0), PixCoord(np.array([1.0, 2.0, 3.0]), np.array([4.0, 5.0, 6.0]))):
+            res.transitions += 1
+            try:
+                r = src.rotate(PixCoord(10.0, 20.0), ang)
+                before = _plain(src.xy)
+                same = r is src or (np.ndim(src.x) and (np.shares_memory(np.asarray(r.x), src.x) or np.shares_memory(np.asarray(r.y), src.y)))
+                if np.ndim(r.x):
+                    r.x[0] += 100.0
+                else:
+                    r.x = r.x + 100.0
+                changed = _plain(src.xy) != before
+            except Exception as exc:      # noqa: BLE001
+                _V(res, 'unexpected_exception', {**case, 'angle': str(ang)}, f'rotate by {ang} raised {_ex(exc)}')
+                continue
+            if same or changed:
+                _V(res, 'copy_not_independent', {**case, 'angle': str(ang)},
+                   f'rotate(centre, {ang}) returned ' + ('the coordinate itself / arrays shared with it' if same else 'a coordinate whose edit changed the source'),
+                   'an independent coordinate', 'shared')
     res.outcome(('misc',))
 
 
